@@ -11,16 +11,19 @@ import (
 	"time"
 
 	"github.com/go-kit/log"
+	"github.com/prometheus/client_golang/prometheus"
 	"github.com/prometheus/client_golang/prometheus/testutil"
 
 	"github.com/grafana/dskit/kv/consul"
 	"github.com/grafana/dskit/ring"
+	"github.com/grafana/dskit/services"
 )
 
 // C15: routing to the next active partition; partition state machine; owner-based replication sets.
 //
 //	C15.route <pdesc> <keys> <->                  ||  <ActivePartitionForKey per key> <GetKeysByPartition>
 //	C15.hist  <initial pdesc> <lifecyclers> <ops> ||  <res@pdesc after every op, joined by #>
+//	C15.loop  <initial pdesc> <lifecycler,create,remove> <script> || <res@pdesc after every action + one full tick>
 //	C15.repl  <pdesc> <instances> <healthy-states,timeout> || <replication sets | err>
 //	C15.mrepl <pdesc> <instances> <healthy-states,partition> || <instances in order;maxUnavailableZones | err>
 //
@@ -552,6 +555,209 @@ func c15SlowWait(seed uint64, idx int) []string {
 	return []string{"C15.hist", encPDescOpt(c15Rebase(init, base), true), lcStr(a) + ";" + lcStr(b), strings.Join(ops, ";"), strings.Join(obs, "#")}
 }
 
+// c15Loop drives the REAL service of one lifecycler (StartAndAwaitRunning: starting + the select loop of `running`
+// with a 3 ms ticker; ChangePartitionState through the actor channel; StopAndAwaitTerminated: ctx.Done + stopping)
+// next to editor calls, on an in-memory KV. After every external action it waits until one complete reconcile
+// tick that started after the action has finished (the reconciles_total counter advanced by 2) and records the ring.
+// Configurations are chosen so that the outcome of a tick does not depend on when exactly it runs (owners and
+// state changes are either 1000 s old or fresh, the durations are 500 s). Returns the fields of one C15.loop line.
+func c15Loop(seed uint64, idx int) []string {
+	r := newRng(seed, uint64(1600+idx))
+	logger := log.NewNopLogger()
+	store, closer := consul.NewInMemoryClient(ring.GetPartitionRingCodec(), logger, nil)
+	defer closer.Close()
+	ctx := context.Background()
+	const key = "pring"
+	base := time.Now().Unix()
+	instances := []string{"ing-a-0", "ing-a-1", "ing-b-0"}
+	pid := int32(r.intn(3))
+	multi := r.chance(1, 3)
+	create := r.chance(2, 3)
+	remove := r.chance(1, 2)
+	waitCount := pick(r, []int{0, 1, 2, 9})
+	deleteAfter := pick(r, []int{0, 500})
+	inst := "ing-c-9"
+	ownerID := inst
+	if multi {
+		ownerID = inst + "/" + itoa(int(pid))
+	}
+
+	init := ring.NewPartitionRingDesc()
+	for k := int32(0); k < 3; k++ {
+		if k == pid && create && r.chance(1, 2) {
+			continue // created by the lifecycler
+		}
+		if k != pid && r.chance(1, 4) {
+			continue
+		}
+		st := pick(r, []ring.PartitionState{ring.PartitionPending, ring.PartitionPending, ring.PartitionActive, ring.PartitionInactive, ring.PartitionInactive})
+		ts := base - 1000
+		if r.chance(1, 4) {
+			ts = base
+		}
+		p := ring.PartitionDesc{Id: k, State: st, StateTimestamp: ts, Tokens: []uint32{uint32(k)*1000 + 1, uint32(k)*1000 + 2}}
+		if r.chance(1, 6) {
+			p.StateChangeLocked, p.StateChangeLockedTimestamp = true, base-1000
+		}
+		init.Partitions[k] = p
+	}
+	for k := 0; k < r.intn(4); k++ {
+		in, op := pick(r, instances), int32(r.intn(3))
+		id := in
+		if multi {
+			id = in + "/" + itoa(int(op))
+		}
+		ts := base - 1000
+		if r.chance(1, 4) {
+			ts = base
+		}
+		init.Owners[id] = ring.OwnerDesc{OwnedPartition: op, State: ring.OwnerActive, UpdatedTimestamp: ts}
+	}
+	initClone := c15Rebase(init, 0)
+	if err := store.CAS(ctx, key, func(interface{}) (interface{}, bool, error) { return initClone, true, nil }); err != nil {
+		panic(err)
+	}
+	reg := prometheus.NewRegistry()
+	l := ring.NewPartitionInstanceLifecycler(ring.PartitionInstanceLifecyclerConfig{
+		PartitionID: pid, InstanceID: inst, MultiPartitionOwnership: multi,
+		WaitOwnersCountOnPending: waitCount, WaitOwnersDurationOnPending: 500 * time.Second,
+		DeleteInactivePartitionAfterDuration: time.Duration(deleteAfter) * time.Second, PollingInterval: 3 * time.Millisecond,
+	}, "verif", key, store, logger, reg)
+	l.SetCreatePartitionOnStartup(create)
+	l.SetRemoveOwnerOnShutdown(remove)
+	editor := ring.NewPartitionRingEditor(key, store)
+
+	ownedTicks := func() float64 {
+		mfs, err := reg.Gather()
+		if err != nil {
+			panic(err)
+		}
+		for _, mf := range mfs {
+			if mf.GetName() == "partition_ring_lifecycler_reconciles_total" {
+				for _, m := range mf.GetMetric() {
+					for _, lp := range m.GetLabel() {
+						if lp.GetName() == "type" && lp.GetValue() == "owned-partition" {
+							return m.GetCounter().GetValue()
+						}
+					}
+				}
+			}
+		}
+		return 0
+	}
+	waitFullTick := func() {
+		c0 := ownedTicks()
+		deadline := time.Now().Add(20 * time.Second)
+		for ownedTicks() < c0+2 {
+			if time.Now().After(deadline) {
+				panic("c15Loop: the lifecycler loop does not tick")
+			}
+			time.Sleep(time.Millisecond)
+		}
+	}
+	get := func() *ring.PartitionRingDesc {
+		v, err := store.Get(ctx, key)
+		if err != nil {
+			panic(err)
+		}
+		return ring.GetOrCreatePartitionRingDesc(v)
+	}
+	var ops, obs []string
+	// nowTick: the clock of a promotion performed by a tick in this step (else the end of the step)
+	nowTick := func(old, cur *ring.PartitionRingDesc, t1 int64) int64 {
+		p, ok := cur.Partitions[pid]
+		q, had := old.Partitions[pid]
+		if ok && p.State == ring.PartitionActive && (!had || q.State != ring.PartitionActive) {
+			return p.StateTimestamp - base
+		}
+		return t1 - base
+	}
+	rec := func(op string, res string, t0 int64) {
+		ops = append(ops, fmt.Sprintf("%s@%d:%d", op, t0-base, time.Now().Unix()-base))
+		obs = append(obs, res+"@"+encPDescOpt(c15Rebase(get(), base), true))
+	}
+
+	// start
+	old := get()
+	t0 := time.Now().Unix()
+	if err := services.StartAndAwaitRunning(ctx, l); err != nil {
+		panic(err)
+	}
+	waitFullTick()
+	cur := get()
+	t1 := time.Now().Unix()
+	nowAct := t1 - base
+	if o, ok := cur.Owners[ownerID]; ok && old.Owners[ownerID] != o {
+		nowAct = o.UpdatedTimestamp - base
+	}
+	ntok := 0
+	if _, had := old.Partitions[pid]; !had {
+		ntok = len(cur.Partitions[pid].Tokens)
+	}
+	rec(fmt.Sprintf("S,%d,%d,%d", ntok, nowAct, nowTick(old, cur, t1)), "ok", t0)
+
+	toStates := []ring.PartitionState{ring.PartitionPending, ring.PartitionActive, ring.PartitionInactive, ring.PartitionActive, ring.PartitionInactive}
+	for i, n := 0, 2+r.intn(4); i < n; i++ {
+		old = get()
+		t0 = time.Now().Unix()
+		var op, res string
+		var target int32
+		switch r.intn(5) {
+		case 0, 1: // ChangePartitionState through the actor channel of the running loop
+			to := pick(r, toStates)
+			res = c15Err(l.ChangePartitionState(ctx, to))
+			op, target = fmt.Sprintf("A,%d", int(to)), pid
+		case 2: // editor: change any partition
+			to := pick(r, toStates)
+			target = int32(r.intn(3))
+			res = c15Err(editor.ChangePartitionState(ctx, target, to))
+			op = fmt.Sprintf("E,%d,%d", target, int(to))
+		case 3: // editor: lock / unlock
+			target = int32(r.intn(3))
+			lk := r.chance(1, 2)
+			res = c15Err(editor.SetPartitionStateChangeLock(ctx, target, lk))
+			b := 0
+			if lk {
+				b = 1
+			}
+			op = fmt.Sprintf("L,%d,%d", target, b)
+		default:
+			op, res, target = "T", "ok", pid
+		}
+		mid := get()
+		waitFullTick()
+		cur = get()
+		t1 = time.Now().Unix()
+		nowAct = t1 - base
+		if p, ok := mid.Partitions[target]; ok {
+			q := old.Partitions[target]
+			if q.State != p.State {
+				nowAct = p.StateTimestamp - base
+			} else if q.StateChangeLocked != p.StateChangeLocked {
+				nowAct = p.StateChangeLockedTimestamp - base
+			}
+		}
+		rec(fmt.Sprintf("%s,%d,%d", op, nowAct, nowTick(mid, cur, t1)), res, t0)
+	}
+	t0 = time.Now().Unix()
+	if err := services.StopAndAwaitTerminated(ctx, l); err != nil {
+		panic(err)
+	}
+	rec("X", "ok", t0)
+	m, cr, rm := "0", "0", "0"
+	if multi {
+		m = "1"
+	}
+	if create {
+		cr = "1"
+	}
+	if remove {
+		rm = "1"
+	}
+	lc := strings.Join([]string{itoa(int(pid)), inst, m, itoa(waitCount), "500", itoa(deleteAfter), cr, rm}, ",")
+	return []string{"C15.loop", encPDescOpt(c15Rebase(init, base), true), lc, strings.Join(ops, ";"), strings.Join(obs, "#")}
+}
+
 // ---- replication sets ----
 
 type c15Reader struct{ r *ring.PartitionRing }
@@ -694,8 +900,22 @@ func runC15(e *env) {
 	if !e.quick {
 		nSlow = 48
 	}
-	slow := make([][]string, nSlow)
+	nLoop := 40
+	if !e.quick {
+		nLoop = 600
+	}
+	slow := make([][]string, nSlow+nLoop)
 	var wg sync.WaitGroup
+	sem := make(chan struct{}, 8)
+	for i := 0; i < nLoop; i++ {
+		wg.Add(1)
+		go func(i int) {
+			defer wg.Done()
+			sem <- struct{}{}
+			defer func() { <-sem }()
+			slow[nSlow+i] = c15Loop(e.seed, i)
+		}(i)
+	}
 	for i := 0; i < nSlow; i++ {
 		wg.Add(1)
 		go func(i int) {
